@@ -19,6 +19,7 @@ SHAPE_CONSTS = """CONSTANTS
   MaxSub = %(maxsub)d
   MaxTotal = %(maxtotal)d
   TypePrefix = ""
+  Reuse = %(reuse)s
   WithBoundary = %(boundary)s
   Seed = %(seed)d
   Modulus = %(modulus)d
@@ -31,6 +32,7 @@ def shape_cfg(c, seed, invariants):
     d["emb"] = ", ".join('"%s"' % t for t in c["emb"])
     d["named"] = "TRUE" if c.get("named") else "FALSE"
     d["boundary"] = "TRUE" if c.get("boundary") else "FALSE"
+    d["reuse"] = "TRUE" if c.get("reuse") else "FALSE"
     d.setdefault("maxsub", 1)
     d.setdefault("tags", "none")
     d["seed"] = seed
@@ -164,26 +166,26 @@ def c03_configs(tier):
         return [
             dict(name="layout", leaf=["int8", "int32", "int64", "struct{}"], emb=["val", "ptr"], names="pos", maxfields=3, maxdepth=3,
                  maxtotal=5, boundary=True, modulus=60),
-            dict(name="palette", leaf=["bool", "int16", "string", "[0]int64", "[3]int8", "[]byte"], emb=["val"], names="uniq", maxfields=3,
+            dict(name="palette", leaf=["bool", "int16", "string", "[0]int64", "[3]int8", "float64"], emb=["val"], names="uniq", maxfields=3,
                  maxdepth=2, maxtotal=4, modulus=20),
             dict(name="names", leaf=["int8", "int16"], emb=["val", "ptr"], names="pool", tags="some", maxfields=3, maxdepth=3,
                  maxtotal=3, modulus=120),
             dict(name="tags", leaf=["int8", "int16"], emb=["val", "ptr"], names="pos", tags="some", maxfields=3, maxdepth=3,
                  maxtotal=4, modulus=400),
-            dict(name="named", leaf=["int8", "int64"], emb=["val", "ptr"], named=True, names="pos", maxfields=2, maxdepth=3, maxsub=2,
+            dict(name="named", leaf=["int8", "int64"], emb=["val", "ptr"], named=True, reuse=True, names="pos", maxfields=2, maxdepth=3, maxsub=2,
                  maxtotal=5, modulus=60),
         ]
     return [
         dict(name="layout", leaf=["int8", "int32", "int64", "struct{}"], emb=["val", "ptr"], names="pos", maxfields=3, maxdepth=3,
              maxtotal=6, boundary=True, modulus=50),
-        dict(name="palette", leaf=["bool", "int16", "string", "[0]int64", "[3]int8", "[]byte", "any", "*int"], emb=["val"], names="uniq",
-             maxfields=3, maxdepth=2, maxtotal=4, modulus=10),
+        dict(name="palette", leaf=["bool", "int16", "string", "[0]int64", "[3]int8", "[]byte", "any", "*int", "float64", "float32", "complex128"], emb=["val"], names="uniq",
+             maxfields=3, maxdepth=2, maxtotal=4, modulus=25),
         dict(name="names", leaf=["int8", "int16"], emb=["val", "ptr"], names="pool", tags="none", maxfields=3, maxdepth=3,
              maxtotal=4, modulus=8),
         dict(name="tags", leaf=["int8"], emb=["val", "ptr"], names="pos", tags="all", maxfields=3, maxdepth=3,
              maxtotal=4, modulus=150),
-        dict(name="named", leaf=["int8", "int64"], emb=["val", "ptr"], named=True, names="pos", maxfields=3, maxdepth=3, maxsub=2,
-             maxtotal=5, modulus=40),
+        dict(name="named", leaf=["int8", "int64"], emb=["val", "ptr"], named=True, reuse=True, names="pos", maxfields=3, maxdepth=3, maxsub=2,
+             maxtotal=5, modulus=60),
     ]
 
 
@@ -311,22 +313,22 @@ def optics_configs(tier, prop):
         return [
             dict(name="layout", leaf=["int8", "int32", "int64", "struct{}"], emb=["val", "ptr"], names="pos", maxfields=3, maxdepth=3,
                  maxtotal=5 if prop == "C01" else 4, boundary=True, modulus=60 if prop == "C01" else 12),
-            dict(name="palette", leaf=["bool", "int16", "string", "[0]int64", "[3]int8", "[]byte"], emb=emb, names="uniq", maxfields=3,
-                 maxdepth=2, maxtotal=4 if prop == "C01" else 3, modulus=70 if prop == "C01" else 12),
+            dict(name="palette", leaf=["bool", "int16", "string", "[0]int64", "[3]int8", "[]byte", "float64"], emb=emb, names="uniq", maxfields=3,
+                 maxdepth=2, maxtotal=4 if prop == "C01" else 3, modulus=110 if prop == "C01" else 16),
             dict(name="names", leaf=["int8", "int16"], emb=["val", "ptr"], names="pool", tags="some", maxfields=3, maxdepth=3,
                  maxtotal=3, modulus=140),
-            dict(name="named", leaf=["int8", "int64"], emb=["val", "ptr"], named=True, names="pos", maxfields=2, maxdepth=3, maxsub=2,
-                 maxtotal=4 if prop == "C01" else 4, modulus=25),
+            dict(name="named", leaf=["int8", "int64"], emb=["val", "ptr"], named=True, reuse=True, names="pos", maxfields=2, maxdepth=3, maxsub=2,
+                 maxtotal=4 if prop == "C01" else 4, modulus=30),
         ]
     return [
         dict(name="layout", leaf=["int8", "int32", "int64", "struct{}"], emb=["val", "ptr"], names="pos", maxfields=3, maxdepth=3,
              maxtotal=6, boundary=True, modulus=25),
-        dict(name="palette", leaf=["bool", "int16", "string", "[0]int64", "[3]int8", "[]byte", "any", "*int"], emb=emb, names="uniq",
-             maxfields=3, maxdepth=2, maxtotal=4, modulus=25),
+        dict(name="palette", leaf=["bool", "int16", "string", "[0]int64", "[3]int8", "[]byte", "any", "*int", "float64", "float32", "complex128"], emb=emb, names="uniq",
+             maxfields=3, maxdepth=2, maxtotal=4, modulus=60),
         dict(name="names", leaf=["int8"], emb=["val", "ptr"], names="pool", tags="all", maxfields=3, maxdepth=3,
              maxtotal=3, modulus=40),
-        dict(name="named", leaf=["int8", "int64"], emb=["val", "ptr"], named=True, names="pos", maxfields=3, maxdepth=3, maxsub=2,
-             maxtotal=5, modulus=25),
+        dict(name="named", leaf=["int8", "int64"], emb=["val", "ptr"], named=True, reuse=True, names="pos", maxfields=3, maxdepth=3, maxsub=2,
+             maxtotal=5, modulus=40),
     ]
 
 
@@ -374,7 +376,8 @@ def check_optics(run, shapes=None):
         run.traces += stats.get("foreign-calls", 0)
     # I level: which variant of the derivation does the tree follow?
     du, dr = stats.get("differs-from-unrepaired-model", 0), stats.get("differs-from-repaired-model", 0)
-    run.notes["derivation_variant_followed"] = "unrepaired" if du == 0 else "repaired" if dr == 0 else "neither"
+    run.notes["derivation_variant_followed"] = ("either (valid requests only)" if du == 0 and dr == 0 else
+                                                "unrepaired" if du == 0 else "repaired" if dr == 0 else "neither")
     if du and dr:
         run.drift.append("panic / no panic of %d (unrepaired model) resp. %d (repaired model) derivations differs from Optics!Derive" % (du, dr))
     for s in shapes[:2]:
@@ -393,6 +396,7 @@ MEM_CFG = """CONSTANTS
   MaxSub = 1
   MaxTotal = %d
   TypePrefix = ""
+  Reuse = FALSE
 SPECIFICATION MSpec
 INVARIANT MemExact
 INVARIANT OwnTypeOnly
@@ -430,6 +434,7 @@ COMPOSE_CONSTS = """CONSTANTS
   MaxDepthT = %(maxdeptht)d
   MaxTotalT = %(maxtotalt)d
   MaxIsos = %(maxisos)d
+  Reuse = FALSE
   WithBoundary = %(boundary)s
   Seed = %(seed)d
   Modulus = %(modulus)d
